@@ -239,7 +239,26 @@ class Engine:
     self.quick_prune = quick_prune
     self.max_paths = 4000
     self.on_empty_list = None  # script hook: what `[]` allocates
+    self.sources = []  # repo files whose module-level literal constants are visible
     self.stats = {'paths': 0}
+
+  def resolve_global(self, ctx, name):
+    """Module-level literal constants of the file the running function was
+    extracted from (e.g. `_NUM_ATTEMPTS = 3`) are read from the real source."""
+    try:
+      f = ctx.cur_frame().get('$func')
+    except Exception:
+      f = None
+    rel = getattr(f, 'relpath', None) if f is not None else None
+    for r in ([rel] if rel else []) + list(self.sources):
+      try:
+        from .extract import module_constant
+        v = module_constant(r, name)
+      except Undecided:
+        continue
+      if isinstance(v, (int, float, str, bytes, bool, tuple)) or v is None:
+        return (v,)
+    return None
 
   # ------------------------------------------------------------------ driver
   def explore(self, sink, fn_name, body):
@@ -720,6 +739,15 @@ class Engine:
       ra = z3.ToReal(a) if is_int(to_z3(a)) else to_z3(a)
       rb = z3.ToReal(b) if is_int(to_z3(b)) else to_z3(b)
       return ra / rb
+    if op in ('LShift', 'RShift', 'BitAnd', 'BitOr', 'BitXor'):
+      if conc and isinstance(a, int) and isinstance(b, int):
+        return {'LShift': a << b, 'RShift': a >> b, 'BitAnd': a & b, 'BitOr': a | b,
+                'BitXor': a ^ b}[op]
+      if op == 'LShift' and isinstance(b, int) and 0 <= b < 64:
+        return a * (1 << b)
+      if op == 'RShift' and isinstance(b, int) and 0 <= b < 64:
+        return py_floordiv(a, 1 << b)
+      raise Unsupported(f'symbolic {op}')
     if op == 'Pow':
       if conc:
         return a ** b
@@ -1177,12 +1205,33 @@ class Engine:
       idx = loop_ordinals(funcv.fdef).get(id(s))
       spec = funcv.loops.get(idx)
     header = ast.unparse(s.iter) if isinstance(s, ast.For) else ast.unparse(s.test)
+    if funcv is not None:
+      # contracts may also be bound by a regex on the loop header ('re:<regex>'),
+      # which survives the insertion of other loops around them
+      import re as _re
+      for k, v in funcv.loops.items():
+        if isinstance(k, str) and k.startswith('re:') and _re.search(k[3:], header):
+          spec = v
+          break
     if spec is not None and spec.expect is not None:
       import re
       if not re.search(spec.expect, header):
-        raise Undecided(
-            f'loop contract binding lost in {funcv.name}: loop #{idx} header '
-            f'{header!r} does not match {spec.expect!r}')
+        # the ordinal moved (a loop was added/removed around it): re-bind by the
+        # header pattern if that is unambiguous
+        cands = [v for v in funcv.loops.values()
+                 if v.expect is not None and re.search(v.expect, header)]
+        if len(cands) == 1:
+          spec = cands[0]
+        else:
+          raise Undecided(
+              f'loop contract binding lost in {funcv.name}: loop #{idx} header '
+              f'{header!r} does not match {spec.expect!r}')
+    elif spec is None and funcv is not None:
+      import re
+      cands = [v for v in funcv.loops.values()
+               if v.expect is not None and re.search(v.expect, header)]
+      if len(cands) == 1:
+        spec = cands[0]
     return spec, idx, header
 
   def s_While(self, ctx, s):
